@@ -37,6 +37,10 @@ MUTANTS = [
     ("skipped-field-pruned-from-cached-document", ["C16", "C15"], "tartiflette/execution/collect.py",
      "            if not await should_include_node(execution_context, selection):\n                continue\n            fields.setdefault",
      "            if not await should_include_node(execution_context, selection):\n                selection_set.selections = [s for s in selection_set.selections if s is not selection]\n                continue\n            fields.setdefault"),
+    ("directive-order-not-reversed", ["C13"], "tartiflette/utils/directives.py",
+     "    for directive in reversed(directives_definition):", "    for directive in directives_definition:"),
+    ("type-hooks-twice-for-variables", ["C13"], "tartiflette/coercers/literals/directives_coercer.py",
+     "    if not directives or (\n        isinstance(node, VariableNode) and not is_input_field\n    ):", "    if not directives:"),
     ("include-inverted", ["C01"], "tartiflette/directive/builtins/include.py",
      'if not directive_args["if"]:', 'if directive_args["if"] is None:'),
 ]
